@@ -14,8 +14,12 @@ from edgegraph.structure import (Vertex, Universe, Link, TwoEndedLink,
 from edgegraph.builder import explicit
 
 
-class D2(DirectedEdge):
-    """a subclass of DirectedEdge"""
+class _Mixin:
+    """a plain mix-in placed FIRST among the bases: class options must be resolved along the MRO"""
+
+
+class D2(_Mixin, DirectedEdge):
+    """a subclass of DirectedEdge (multiple inheritance, mix-in first)"""
 
 
 class U2(UnDirectedEdge):
@@ -28,6 +32,24 @@ class T2(TwoEndedLink):
 
 class NLink(Link):
     """an n-ary link: plain subclass of Link"""
+
+
+class EmptyVertex(Vertex):
+    """a vertex that is FALSY (an "empty container"): identity, never truth value, must decide"""
+
+    def __len__(self):
+        return 0
+
+
+class SizedUniverse(Universe):
+    """a universe that is falsy while it has no members"""
+
+    def __len__(self):
+        return len(self.vertices)
+
+
+# default pool of the structural worlds: odd vertices plain, even vertices falsy
+DEFAULT_VERTEX_POOL = [Vertex, EmptyVertex]
 
 
 import itertools
@@ -89,7 +111,9 @@ def key(state) -> str:
 
 
 class World:
-    def __init__(self, consts: dict, init: dict, vertex_cls=Vertex):
+    def __init__(self, consts: dict, init: dict, vertex_cls=None):
+        if vertex_cls is None or vertex_cls is Vertex:
+            vertex_cls = DEFAULT_VERTEX_POOL
         self.NV, self.NU, self.NL, self.NLaw = consts["NV"], consts["NU"], consts["NL"], consts["NLaw"]
         self.NO = self.NV + self.NU
         self.O = [None] * (self.NO + 1)       # objects by object number (vertices, then universes)
@@ -105,11 +129,15 @@ class World:
         for _ in range(init["bv"]):
             self._reg_vertex(self._new_vertex())
         for _ in range(init["bu"]):
-            self._reg_universe(Universe(), default_laws=True)
+            self._reg_universe(self._new_universe(), default_laws=True)
         for j in range(self.NU + 1, self.NLaw + 1):
             if init["bl"][j - 1]:
                 self.LAW[j] = UniverseLaws()
         self._index()
+
+    def _new_universe(self, **kw):
+        cls = (Universe, SizedUniverse)[self.bu % 2]        # universe 1 plain, universe 2 falsy-when-empty, ...
+        return cls(**kw)
 
     def _new_vertex(self, **kw):
         cls = self.vertex_cls
@@ -225,7 +253,7 @@ class World:
             return [self._reg_vertex(v)]
         if op == "unew":
             law = None if b[0] == 0 else self.LAW[b[0]]
-            u = Universe(vertices=_as_container([O(x) for x in a], len(a) + b[0]), laws=law)
+            u = self._new_universe(vertices=_as_container([O(x) for x in a], len(a) + b[0]), laws=law)
             return [self._reg_universe(u, default_laws=(law is None))]
         if op == "setlaws":
             O(self.NV + a[0]).laws = None if a[1] == 0 else self.LAW[a[1]]
@@ -237,7 +265,7 @@ class World:
             from edgegraph.builder import adjlist, adjmatrix
             try:
                 if op == "loaddict":
-                    adj = {O(key): [O(v) for v in vals] for key, vals in decode_adj(a)}
+                    adj = {O(key): _as_container([O(v) for v in vals], key + 2 * len(vals)) for key, vals in decode_adj(a)}
                     self.last_input = adj
                     u = adjlist.load_adj_dict(adj, linktype=COUNTING[k])
                 else:
